@@ -1760,7 +1760,7 @@ func cacheProperties() []*propertySpec {
 			Explanation: "Static must-analysis of the run loop of file.SpokFile.Run on the SSA form: the cache events (read G, update S, persist D, load L), the digest computation H, the command execution X and the 'skipped' stores K are located by effect and type; CP1 proves by edge dominance that every K is guarded by H==G of the iterated task read from the loaded cache; CP3 proves by exhaustive path search over the function's CFG (with infeasible-branch pruning) that no path from a successful X leaves a stale digest on disk; CP6 proves by backward slicing that every declared file input field reaches H and that glob expansion dominates the loop; CP9 that keys and file path agree. Decides these structural necessary conditions for every path of the code, not the observed behaviour.",
 			NotCovered:  []string{"change-sensitivity of the digest function itself (C04)", "correctness of glob expansion (C05)", "clock / file-system races between hashing and running"},
 			Assumptions: trusted,
-			Rules:       []func(*Ctx) *rule{ruleCP1, ruleCP3("CP3"), ruleCP6, ruleCP9, ruleCP10, ruleCP12}},
+			Rules:       []func(*Ctx) *rule{ruleCP1, ruleCP3("CP3"), ruleCP6, ruleCP9, ruleCP10, ruleCP12, ruleTK2}},
 		{ID: "C02", Title: "A task whose inputs are unchanged since its last success is skipped",
 			Explanation: "Static analysis of the run loop (same event model as C01): CP2 computes, per decision of one iteration (run, skip, record, persist), the transitive control dependence on the intra-iteration CFG and the backward data slice of every influencing condition and proves that no loop-carried phi or outer cell written in the loop is read (non-interference between tasks); CP3L proves by path search that every successful X is followed on all paths by recording an H-derived digest and persisting it; CP5 proves that a task with an empty input list can never be reported skipped.",
 			NotCovered:  []string{"that equal inputs produce equal digests across runs (C04 determinism)", "that the skip branch is actually taken when digests are equal (value-level)"},
